@@ -109,9 +109,51 @@ func countHistory(c *kit.Ctx, w World) {
 	}
 }
 
+// countTGP buckets NodeClaim TGP x pool-template TGP x "a pod-level blocker is present" per node.
+func countTGP(c *kit.Ctx, w World, o wobs) {
+	pools := map[string]Pool{}
+	for _, p := range w.Pools {
+		pools[p.Name] = p
+	}
+	for i, n := range w.Nodes {
+		if n.Claim == nil || n.Node == nil {
+			continue
+		}
+		lbl := n.Claim.Labels
+		if n.Node.Labels["reg"] == "true" {
+			lbl = n.Node.Labels
+		}
+		pl, ok := pools[lbl["np"]]
+		if !ok {
+			continue
+		}
+		k := "tgp:claim=" + map[bool]string{true: "set", false: "none"}[n.Claim.TGP] + ":pool="
+		switch {
+		case pl.TGP == nil:
+			k += "none"
+		case n.Claim.TGP && *pl.TGP == 300*sec:
+			k += "same"
+		case n.Claim.TGP:
+			k += "differs"
+		default:
+			k += "set"
+		}
+		if o.PodRes[i] == "PBlocked" {
+			k += ":pod-blocked"
+			if pl.Static {
+				k += ":static"
+			} else {
+				k += ":dynamic"
+			}
+		}
+		c.Count(k)
+	}
+}
+
 func emitB(c *kit.Ctx, w World, cell, baseName string) {
 	countHistory(c, w)
 	o := runWorld(c, &w)
+	countTGP(c, w, o)
 	literalKeys(c, &w, o)
 	k := ""
 	if nontrivial(o) {
@@ -165,8 +207,13 @@ func main() {
 	//    terminationGracePeriod (the only thing that may override pod-level blockers, for drift only)
 	for _, b := range bases {
 		for _, p := range ps {
-			for _, tgp := range []bool{false, true} {
-				if tgp && !(p.Group == "pod-dnd" || p.Group == "pdb" || p.Group == "fault" || p.Group == "none" || p.Group == "node-dnd" || p.Group == "nominated") {
+			// TGP variants: none; on the NodeClaim; on the pool template only; on both (different values)
+			for _, tgp := range []string{"", "tgp", "pool-tgp-only", "pool-tgp-differs-from-claim"} {
+				podLevel := p.Group == "pod-dnd" || p.Group == "pdb" || p.Group == "fault" || p.Group == "none"
+				if tgp == "pool-tgp-differs-from-claim" && b.Pods == 0 {
+					continue // the both-TGP variant only on the busy bases (keeps the quick tier near 3000 cases)
+				}
+				if tgp != "" && !(podLevel || (tgp == "tgp" && (p.Group == "node-dnd" || p.Group == "nominated"))) {
 					continue
 				}
 				g := newGW(c.Rand.Fork())
@@ -175,17 +222,15 @@ func main() {
 					continue
 				}
 				note := b.Name + "+" + p.Name
-				if tgp {
-					safe(byName["tgp"], g, n)
-					note += "+tgp"
+				cell := p.Group
+				if tgp != "" {
+					safe(byName[tgp], g, n)
+					note += "+" + tgp
+					cell += "+" + map[string]string{"tgp": "tgp", "pool-tgp-only": "pooltgp", "pool-tgp-differs-from-claim": "bothtgp"}[tgp]
 				}
 				w := g.finish()
 				w.Note = note
 				c.Count("pert:" + p.Group)
-				cell := p.Group
-				if tgp {
-					cell += "+tgp"
-				}
 				emitB(c, w, cell, b.Name)
 			}
 		}
@@ -228,6 +273,12 @@ func main() {
 				}
 				note += n.ID + ":nomination-history "
 				c.Count("pert:nominated")
+			}
+			if r.Chance(1, 3) {
+				n.Claim.TGP = true
+			}
+			if r.Chance(1, 3) {
+				g.setPoolTGP(n.Claim.Labels["np"], kit.Pick(r, []int64{300 * sec, 600 * sec, 1 * sec}))
 			}
 			k := kit.Pick(r, []int{0, 1, 1, 1, 2, 2, 3})
 			for ; k > 0; k-- {
@@ -272,7 +323,7 @@ func main() {
 		}
 	}
 	c.Meta.Rule = "worlds: non-trivial = some method has a candidate or some node is rejected by node / pod validation; distinct by the Gallina term of the world (sha1). " +
-		"sweep = every perturbation (one blocker or near-blocker flipped on an otherwise eligible node) x 4 base nodes (dynamic busy, dynamic empty, static busy, WhenEmpty empty) x {no TGP, TGP} for pod-level groups, each evaluated by all five methods; " +
+		"sweep = every perturbation (one blocker or near-blocker flipped on an otherwise eligible node) x 4 base nodes (dynamic busy, dynamic empty, static busy, WhenEmpty empty) x {no TGP, NodeClaim TGP, pool-template TGP only, both with different values} for pod-level groups, each evaluated by all five methods; " +
 		"then random worlds of 1-3 nodes with 0-3 perturbations each; condition cases: exhaustive grid consolidateAfter x Initialized x lastPodEvent x clock at boundary-1ns/boundary/boundary+1ns x previous condition"
 	c.Meta.Exhaustive = false
 	c.Meta.Corr = []string{
